@@ -68,6 +68,31 @@ func encodeCases(e *Env, t *schema.Type) []ecase {
 			cs = append(cs, ecase{"body/unregistered-key", m2})
 		}
 	}
+	// frames whose body has to refuse (a list one element beyond its 16-bit count): the frame's error path runs
+	for _, f := range t.Fields {
+		if f.Kind != "union" || f.Key != "MsgType" {
+			continue
+		}
+		tb := e.S.Table(t.Pkg, f.Table)
+		for _, en := range tb.Entries {
+			bt := e.S.Lookup(t.Pkg, en.Type)
+			for _, s := range lenSites(bt) {
+				if s.max > 0xFFFF {
+					continue
+				}
+				g := e.Gen(&gen.Opts{Lens: []int{1}, StrLens: []int{2}, ForceKey: map[string]any{tb.QName: en.Key}}, t.QName, bt.QName, s.field.Name, s.what, "c17")
+				v := g.Value(t)
+				body := reflect.ValueOf(v).Elem().FieldByName(f.Name).Elem().Interface()
+				setLen(e, bt, body, s, s.max+1, g)
+				cs = append(cs, ecase{"frame-with-refusing-body:" + bt.Name + "." + s.field.Name, v})
+			}
+		}
+		// ... and a caller-supplied body that writes a few bytes and then returns an error
+		g := e.Gen(&gen.Opts{}, t.QName, "stub-body")
+		v := g.Value(t)
+		reflect.ValueOf(v).Elem().FieldByName(f.Name).Set(reflect.ValueOf(&failingBody{N: 7}))
+		cs = append(cs, ecase{"frame-with-refusing-body:stub", v})
+	}
 	// nested pointer parts: each one nil in turn
 	var ptrFields []string
 	for _, f := range t.Fields {
@@ -251,7 +276,7 @@ func c17(e *Env) {
 		return
 	}
 	r := e.R
-	r.Rule("every type × {zero value, constructor result, arbitrary values (numbers of any bit pattern, text of any length incl. over-long and all-pad, lists of 0..17 elements, nil nested parts, nil/mismatched bodies; thorough: 70 000-element lists), every registered key with a nil body/extension, unregistered keys with and without a body, each nested pointer part nil in turn, every text length 0..2200 of every prefixed-text field, element counts 0..1100 of one list field per type} × destination buffer history H1..H7 (fresh, random content, earlier frames filling most of the capacity, partly consumed, drained, garbage in spare capacity, header-sized spare capacity); plus every checksummed frame encoded four times in a row while its checksum service is unregistered (Remove / Clear); values with nil list elements or typed-nil bodies are excluded, as the property says. distinct_nontrivial = distinct structural hashes of the values encoded")
+	r.Rule("every type × {zero value, constructor result, arbitrary values (numbers of any bit pattern, text of any length incl. over-long and all-pad, lists of 0..17 elements, nil nested parts, nil/mismatched bodies; thorough: 70 000-element lists), every registered key with a nil body/extension, unregistered keys with and without a body, each nested pointer part nil in turn, every text length 0..2200 of every prefixed-text field, element counts 0..1100 of one list field per type, frames whose body must refuse (a list one element beyond its 16-bit count; a caller-supplied body returning an error)} × destination buffer history H1..H7 (fresh, random content, earlier frames filling most of the capacity, partly consumed, drained, garbage in spare capacity, header-sized spare capacity); plus every checksummed frame encoded four times in a row while its checksum service is unregistered (Remove / Clear); values with nil list elements or typed-nil bodies are excluded, as the property says. distinct_nontrivial = distinct structural hashes of the values encoded")
 	r.Explain("Oracle: Encode returns normally — nil error with bytes appended, or a non-nil error; a recovered panic or the death of the (child) process is a violation, with the pre-logged in-flight value as witness.")
 	r.Assume("values not generated are not covered")
 	outs := runChildren(e, e.Workers, 300*time.Second)
